@@ -180,7 +180,9 @@ def judge(isa, kernel_ast, forms, dg, mm, flags, R, case, vocab_by_name):
         if (a, b) in ref:
             continue
         A, B = kernel_ast[a], kernel_ast[b]
-        if any("d" in m["role"] for m in A["mems"]) and any("s" in m["role"] for m in B["mems"]):
+        # an edge from a storing instruction to a later instruction with a memory operand is the store->load search's doing
+        # (also for address-only operands such as lea's, which the shipped ISA database declares as a memory source)
+        if any("d" in m["role"] for m in A["mems"]) and B["mems"]:
             R.count("store_load_edges_left_to_C06")
             continue
         R.violation("extra/" + explain_extra(kernel_ast, a, b, isa, flags, vocab_by_name),
